@@ -19,17 +19,23 @@
     idempotent ........................ simplify_idem
     keeps every observed node ......... simplify_keeps_observed
     read-off graph = projection ....... simplify_projection (rule1..rule4_*_sameProj, fromLV_is_projection)
-    separation unchanged .............. simplify_dsep_invariant, dsep_iff_msep_projection, simplify_msep_invariant
+    separation unchanged .............. simplify_dsep_invariant, dsep_iff_msep_projection, simplify_msep_invariant (walks)
+      with the textbook PATH definition  dconn_walk_iff_path, mconn_walk_iff_path, simplify_dsep_invariant_path,
+      of C04 and the C04 model ........  dsep_iff_msep_projection_path, lvdag_dsep_model_eq_projection,
+                                         simplify_preserves_dsep_model, simplify_dsep_verdict_iff_no_path
     verdicts from the projection ...... verdict_invariant
     evans_simplify .................... evans_projection, evans_id
-  Nothing is `_partial`; the one classical fact that is used informally when reading the separation
-  theorems (walk formulation = path formulation) is listed as OPEN at the end of section 2b.
+  Nothing is `_partial`.  The separation theorems of section 2b are proved for the walk formulation; section 2c
+  proves it equal to the simple-path definition `MG.MConnPath` of Y0/Spec/SepSpec.lean (the one property C04
+  is stated with) and restates the clause with it and with the executable C04 model `MG.dSeparated`.
 -/
 import Y0.Lemmas.LatentOfMG
 import Y0.Lemmas.LatentSimplify
 import Y0.Lemmas.LatentEvans
 import Y0.Lemmas.LatentSepRule1
 import Y0.Lemmas.LatentMsep
+import Y0.Lemmas.LatentPath
+import Y0.Props.C04
 
 namespace Y0.LV
 open MG
@@ -221,13 +227,115 @@ theorem simplify_msep_invariant (prime : Nat → Nat) (hp : ∀ n, n < prime n) 
   obtain ⟨G, hG, hproj⟩ := simplify_projection prime hp D hw ha r h
   exact ⟨G, hG, (dsep_iff_msep_projection prime hp D hw ha G hproj Z a b hZ hoa hob hab).symm⟩
 
--- OPEN: (classical, generic graph theory, not specific to y0; not mechanised; cross-checked by the
---   harness oracle on every generated case by enumerating simple paths)
---   theorem dconn_walk_iff_path : D.Acyclic → (D.DConn Z a b ↔ ∃ a simple path a = x₀, …, xₙ = b in the
---     skeleton of D on which every collider has a descendant-or-self in Z and every other inner node is
---     outside Z),  and the same statement for `MConnMixed`.
---   The theorems above are complete statements about the walk formulation, which is a standard
---   definition of d-/m-connection; only the translation to the path formulation is left to the literature.
+/-! ## 2c. the separation clause with the textbook definition property C04 is stated with
+
+`G.MConnPath a b C` (Y0/Spec/SepSpec.lean) is the textbook definition: an m-connecting PATH, no node visited
+twice, every collider an ancestor of `C`, every other inner node outside `C`; for a graph without
+bidirected edges this is d-connection.  `D.asMG` is the LV-DAG as such a graph: all nodes (latents
+included), the directed edges, no bidirected edge.  The walk formulation used in 2b is proved equal to
+it (`dconn_walk_iff_path`, `mconn_walk_iff_path`; the walk → path shortening is Lemmas/SepPath.lean of the
+`sep` family), so the theorems of 2b can be restated with `MConnPath`, and with the verdict of the
+executable C04 model `MG.dSeparated` (= `are_d_separated`), which C04 proves equal to `¬ MConnPath`. -/
+
+/-- **walk formulation = path formulation**, LV-DAG: `D.DConn` (walks, `Reach`) is d-connection by a
+simple path in the directed graph `D.asMG` -/
+theorem dconn_walk_iff_path (D : LV) (C : List Nat) (a b : Nat) (hab : a ≠ b) (ha : a ∉ C) (hb : b ∉ C) :
+    D.DConn (fun z => z ∈ C) a b ↔ D.asMG.MConnPath a b C :=
+  dconn_iff_mconnPath_asMG D C a b hab ha hb
+
+/-- **walk formulation = path formulation**, mixed graph: `MConnMixed` (walks, `MixedReach`) is
+m-connection by a simple path -/
+theorem mconn_walk_iff_path (G : MG Nat) (C : List Nat) (a b : Nat) (hab : a ≠ b) (ha : a ∉ C) (hb : b ∉ C) :
+    MConnMixed G (fun z => z ∈ C) a b ↔ G.MConnPath a b C :=
+  mconnMixed_iff_mconnPath G C a b hab ha hb
+
+/-- `simplify_dsep_invariant` with the textbook definition: the simplified DAG and the original DAG have
+the same d-connecting paths between observed nodes given observed conditioning sets -/
+theorem simplify_dsep_invariant_path (prime : Nat → Nat) (hp : ∀ n, n < prime n) (D : LV) (hw : D.WF)
+    (ha : D.Acyclic) (r : SimplifyResults) (h : D.simplify prime = .ok r) (C : List Nat) (a b : Nat)
+    (hC : ∀ c ∈ C, D.Observed c) (hoa : D.Observed a) (hob : D.Observed b) (hab : a ≠ b)
+    (haC : a ∉ C) (hbC : b ∉ C) :
+    r.graph.asMG.MConnPath a b C ↔ D.asMG.MConnPath a b C := by
+  rw [← dconn_walk_iff_path _ C a b hab haC hbC, ← dconn_walk_iff_path _ C a b hab haC hbC]
+  exact simplify_dsep_invariant prime hp D hw ha r h _ a b hC hoa hob hab
+
+/-- `dsep_iff_msep_projection` with the textbook definition: a d-connecting path between two observed
+nodes inside the LV-DAG (through latents) exists iff an m-connecting path exists in the latent projection -/
+theorem dsep_iff_msep_projection_path (D : LV) (hw : D.WF) (ha : D.Acyclic) (G : MG Nat)
+    (hG : IsProjection D G) (C : List Nat) (a b : Nat) (hC : ∀ c ∈ C, D.Observed c)
+    (hoa : D.Observed a) (hob : D.Observed b) (hab : a ≠ b) (haC : a ∉ C) (hbC : b ∉ C) :
+    D.asMG.MConnPath a b C ↔ G.MConnPath a b C := by
+  rw [← dconn_walk_iff_path D C a b hab haC hbC, ← mconn_walk_iff_path G C a b hab haC hbC]
+  exact dsep_iff_msep_projection (· + 1) (fun n => Nat.lt_succ_self n) D hw ha G hG _ a b hC hoa hob hab
+
+/-- two graphs with the same m-connecting paths for a query get the same verdict from the C04 model
+(by C04's `dsep_iff_mseparated`) -/
+theorem dSeparated_eq_of_mconnPath_iff (G H : MG Nat) (hG : G.WF) (hH : H.WF) (a b : Nat) (C : List Nat)
+    (hqG : G.ValidQuery a b C) (hqH : H.ValidQuery a b C) (hab : a ≠ b) (haC : a ∉ C) (hbC : b ∉ C)
+    (h : G.MConnPath a b C ↔ H.MConnPath a b C) : G.dSeparated a b C = H.dSeparated a b C := by
+  obtain ⟨s, hs⟩ := dsep_total G hG a b C hqG haC hbC
+  obtain ⟨t, ht⟩ := dsep_total H hH a b C hqH haC hbC
+  have h1 := dsep_iff_mseparated G hG a b C hqG hab haC hbC s hs
+  have h2 := dsep_iff_mseparated H hH a b C hqH hab haC hbC t ht
+  rw [hs, ht]
+  congr 1
+  have : s = true ↔ t = true := by rw [h1, h2, h]
+  cases s <;> cases t <;> simp_all
+
+/-- **Separation among observed nodes, strongest reading.**  For observed `a ≠ b` and an observed
+conditioning set, the verdict of `are_d_separated` (the C04 model) on the LV-DAG itself — taken as a DAG
+with the latents as ordinary nodes — equals its verdict on any latent projection of the LV-DAG. -/
+theorem lvdag_dsep_model_eq_projection (D : LV) (hw : D.WF) (ha : D.Acyclic) (G : MG Nat)
+    (hG : IsProjection D G) (hGw : G.WF) (C : List Nat) (a b : Nat) (hC : ∀ c ∈ C, D.Observed c)
+    (hoa : D.Observed a) (hob : D.Observed b) (hab : a ≠ b) (haC : a ∉ C) (hbC : b ∉ C) :
+    D.asMG.dSeparated a b C = G.dSeparated a b C :=
+  dSeparated_eq_of_mconnPath_iff D.asMG G (asMG_wf D hw) hGw a b C
+    ⟨hoa.1, hob.1, fun c hc => (hC c hc).1⟩
+    ⟨(hG.nodes a).2 hoa, (hG.nodes b).2 hob, fun c hc => (hG.nodes c).2 (hC c hc)⟩ hab haC hbC
+    (dsep_iff_msep_projection_path D hw ha G hG C a b hC hoa hob hab haC hbC)
+
+/-- **`simplify_preserves_dsep_model`.**  The mixed graph read off the simplified DAG is well formed and,
+for observed `a ≠ b` and observed `C`, `are_d_separated` (the C04 model) gives on it
+  (1) the verdict it gives on any latent projection `G0` of the ORIGINAL DAG,
+  (2) the verdict it gives on the original DAG itself (latents as ordinary nodes), and
+  (3) the verdict it gives on the simplified DAG itself. -/
+theorem simplify_preserves_dsep_model (prime : Nat → Nat) (hp : ∀ n, n < prime n) (D : LV) (hw : D.WF)
+    (ha : D.Acyclic) (r : SimplifyResults) (h : D.simplify prime = .ok r) (C : List Nat) (a b : Nat)
+    (hC : ∀ c ∈ C, D.Observed c) (hoa : D.Observed a) (hob : D.Observed b) (hab : a ≠ b)
+    (haC : a ∉ C) (hbC : b ∉ C) :
+    ∃ G, r.graph.toMG? = .ok G ∧ G.WF ∧
+      (∀ G0 : MG Nat, IsProjection D G0 → G0.WF → G.dSeparated a b C = G0.dSeparated a b C) ∧
+      G.dSeparated a b C = D.asMG.dSeparated a b C ∧
+      G.dSeparated a b C = r.graph.asMG.dSeparated a b C := by
+  obtain ⟨G, hG, hproj⟩ := simplify_projection prime hp D hw ha r h
+  have hGw := toMG?_wf _ G hG
+  obtain ⟨w', a', _, sp⟩ := simplify_spec prime hp D hw ha r h
+  have hproj' : IsProjection r.graph G := ⟨fun v => by rw [hproj.nodes, sp.obs],
+    fun u v => by rw [hproj.di, sp.di], fun u v => by rw [hproj.bi, sp.bi]⟩
+  refine ⟨G, hG, hGw, fun G0 h0 hw0 => ?_, ?_, ?_⟩
+  · exact dsep_equiv_congr G G0 hGw hw0 (hproj.equiv h0) a b C
+  · exact (lvdag_dsep_model_eq_projection D hw ha G hproj hGw C a b hC hoa hob hab haC hbC).symm
+  · exact (lvdag_dsep_model_eq_projection r.graph w' a' G hproj' hGw C a b
+      (fun c hc => (sp.obs c).2 (hC c hc)) ((sp.obs a).2 hoa) ((sp.obs b).2 hob) hab haC hbC).symm
+
+/-- the verdict really is the textbook one: `are_d_separated` on the read-off graph says "separated"
+exactly when no d-connecting path joins `a` and `b` given `C` inside the ORIGINAL LV-DAG -/
+theorem simplify_dsep_verdict_iff_no_path (prime : Nat → Nat) (hp : ∀ n, n < prime n) (D : LV) (hw : D.WF)
+    (ha : D.Acyclic) (r : SimplifyResults) (h : D.simplify prime = .ok r) (C : List Nat) (a b : Nat)
+    (hC : ∀ c ∈ C, D.Observed c) (hoa : D.Observed a) (hob : D.Observed b) (hab : a ≠ b)
+    (haC : a ∉ C) (hbC : b ∉ C) :
+    ∃ G s, r.graph.toMG? = .ok G ∧ G.dSeparated a b C = .ok s ∧ (s = true ↔ ¬ D.asMG.MConnPath a b C) := by
+  obtain ⟨G, hG, hproj⟩ := simplify_projection prime hp D hw ha r h
+  have hGw := toMG?_wf _ G hG
+  have hq : G.ValidQuery a b C :=
+    ⟨(hproj.nodes a).2 hoa, (hproj.nodes b).2 hob, fun c hc => (hproj.nodes c).2 (hC c hc)⟩
+  obtain ⟨s, hs⟩ := dsep_total G hGw a b C hq haC hbC
+  refine ⟨G, s, hG, hs, ?_⟩
+  rw [dsep_iff_mseparated G hGw a b C hq hab haC hbC s hs,
+    dsep_iff_msep_projection_path D hw ha G hproj C a b hC hoa hob hab haC hbC]
+
+/- non-vacuity of 2c: in `exampleDag` (defined below) `2` and `3` are observed, distinct, and joined by
+the d-connecting simple path `2 ← 10 → 11 → 3` — see the examples at the end of the file -/
 
 /-! ## 3. `evans_simplify` (ADMG → LV-DAG, mark extra latents, simplify, read back) -/
 
@@ -281,9 +389,24 @@ example :
       some (some ([1, 2, 3, 4], [(1, 2), (1, 3), (1, 4)], [(2, 3), (2, 4), (3, 4)])) := by decide
 
 /-- non-vacuity of the separation clause: in `exampleDag`, `2` and `3` are d-connected given `∅`
-(walk `2 ← 10 → 11 → 3` through two latents) and `1`, `4` are d-connected given `∅` -/
-example : exampleDag.DConn (fun _ => False) 2 3 :=
-  ⟨true, .chainDown (.fork (.startUp (p := 10) (by unfold Edge; decide)) (fun h => h) (c := 11)
-    (by unfold Edge; decide)) (fun h => h) (c := 3) (by unfold Edge; decide)⟩
+(walk `2 ← 10 → 11 → 3` through two latents) -/
+theorem exampleDag_dconn : exampleDag.DConn (fun z => z ∈ ([] : List Nat)) 2 3 :=
+  ⟨true, .chainDown (.fork (.startUp (p := 10) (by unfold Edge; decide)) (by simp) (c := 11)
+    (by unfold Edge; decide)) (by simp) (c := 3) (by unfold Edge; decide)⟩
+
+/-- … hence (section 2c) by a simple d-connecting path in the DAG, and the C04 model says so on the DAG
+itself and on the graph read off the simplified DAG -/
+example : exampleDag.asMG.MConnPath 2 3 [] :=
+  (dconn_walk_iff_path exampleDag [] 2 3 (by decide) (by simp) (by simp)).1 exampleDag_dconn
+
+/-- a separation that holds: `1 → L → 2 → 3` with `L` latent; `1 ⟂ 3 | 2` in the DAG and in the projection -/
+def chainDag : LV := { nodes := [1, 2, 3, 10], edges := [(1, 10), (10, 2), (2, 3)], latent := [10] }
+
+example : chainDag.asMG.dSeparated 1 3 [2] = .ok true := by decide
+example : chainDag.asMG.dSeparated 1 3 [] = .ok false := by decide
+example :
+    ((chainDag.simplify (· + 100)).toOption.bind (fun r => r.graph.toMG?.toOption)).map
+      (fun G => ((G.dSeparated 1 3 [2]).toOption, (G.dSeparated 1 3 []).toOption, G.di, G.bi)) =
+      some (some true, some false, [(1, 2), (2, 3)], []) := by decide
 
 end Y0.LV
